@@ -512,3 +512,280 @@ Proof.
   destruct (serve r path) as [S M| |] eqn:E; [left; eauto | right | right];
     (split; [reflexivity|]); rewrite <- E; apply unimplemented_well_formed; rewrite E; reflexivity.
 Qed.
+
+(* =========================================================================================
+   Added after AUDIT2: mounted services (NAME + literal arms), generated servers and clients as
+   functions of the tonic-build descriptor, request methods, Routes on a caller's axum::Router.
+   ========================================================================================= *)
+
+(* ---------- the guard of the observables is the hypothesis of the theorems ---------- *)
+Definition regs_ok (regs : list reg) : Prop := names_ok (map service_of regs).
+Definition reg_name (x : reg) : list N :=
+  match x with RStub s => svc_name s | RGen g e => tb_service_name g e end.
+Definition reg_methods (x : reg) : list (list N) :=
+  match x with RStub s => svc_methods s | RGen g e => map tm_ident (ts_methods g) end.
+
+Lemma reg_name_service_of x : svc_name (service_of x) = reg_name x.
+Proof. destruct x; reflexivity. Qed.
+Lemma reg_methods_service_of x : svc_methods (service_of x) = reg_methods x.
+Proof. destruct x; reflexivity. Qed.
+
+Lemma regs_in_model_iff regs : regs_in_model regs = true <-> regs_ok regs.
+Proof.
+  unfold regs_in_model, regs_ok, names_ok. rewrite forallb_forall, Forall_forall. split.
+  - intros H s Hs. apply in_map_iff in Hs as [x [<- Hx]]. now apply H.
+  - intros H x Hx. apply H. now apply in_map.
+Qed.
+
+(* ---------- a generated server is NAME + arms "/NAME/identifier" ---------- *)
+Lemma tb_method_path_eq g m e :
+  tb_method_path g m e = method_path (tb_service_name g e) (tm_ident m).
+Proof. reflexivity. Qed.
+
+Lemma mount_service_of x : mount x = mount_stub (service_of x).
+Proof.
+  destruct x as [s|g e]; [reflexivity|].
+  unfold mount, tb_generate_server, mount_stub, service_of. cbn [svc_name svc_methods].
+  f_equal. rewrite map_map. apply map_ext. intros m. reflexivity.
+Qed.
+
+Lemma map_mount regs : map mount regs = map mount_stub (map service_of regs).
+Proof. rewrite map_map. apply map_ext. exact mount_service_of. Qed.
+
+Lemma arm_lookup_stub name ms path :
+  arm_lookup (map (fun m => (method_path name m, m)) ms) path = dispatch_arms name ms path.
+Proof.
+  induction ms as [|m ms IH]; [reflexivity|]. cbn [map arm_lookup dispatch_arms].
+  destruct (bytes_eqb (method_path name m) path); [reflexivity | exact IH].
+Qed.
+
+Lemma mroute_stub l path : mroute (map mount_stub l) path = option_map mount_stub (route l path).
+Proof.
+  induction l as [|s l IH]; [reflexivity|]. cbn [map mroute route]. cbn [mount_stub mt_name].
+  destruct (match_route (svc_name s) path); [reflexivity | exact IH].
+Qed.
+
+Lemma mserve_stub l path : mserve (map mount_stub l) path = serve l path.
+Proof.
+  unfold mserve, serve. rewrite mroute_stub. destruct (route l path) as [s|]; [|reflexivity].
+  cbn [option_map]. unfold mount_stub at 1. cbn [mt_arms]. rewrite arm_lookup_stub.
+  unfold dispatch. cbn [mount_stub mt_name]. reflexivity.
+Qed.
+
+Lemma existsb_mount_stub r n :
+  existsb (fun u => bytes_eqb (mt_name u) n) (map mount_stub r) =
+  existsb (fun t => bytes_eqb (svc_name t) n) r.
+Proof. induction r as [|t r IH]; [reflexivity|]. cbn [map existsb]. now rewrite IH. Qed.
+
+Lemma madd_services_stub l : forall r0,
+  madd_services (map mount_stub r0) (map mount_stub l) = option_map (map mount_stub) (add_services r0 l).
+Proof.
+  induction l as [|s l IH]; intros r0; [reflexivity|].
+  cbn [map madd_services add_services]. unfold madd_service, add_service.
+  cbn [mount_stub mt_name]. destruct (v07_rejects (svc_name s)); [reflexivity|].
+  rewrite existsb_mount_stub.
+  destruct (existsb (fun t => bytes_eqb (svc_name t) (svc_name s)) r0); [reflexivity|].
+  change [mount_stub s] with (map mount_stub [s]). rewrite <- map_app. apply IH.
+Qed.
+
+Lemma mbuild_stub l : mbuild (map mount_stub l) = option_map (map mount_stub) (build l).
+Proof. exact (madd_services_stub l []). Qed.
+
+(* the functions the harness evaluates (mbuild / mserve on mounted generated servers and stubs)
+   coincide with build / serve on the same registrations read as NAME + arm identifiers: every
+   theorem about [serve] is a theorem about [mserve] *)
+Theorem mounted_bridge regs r : mbuild (map mount regs) = Some r ->
+  build (map service_of regs) = Some (map service_of regs) /\
+  r = map mount regs /\
+  forall path, mserve r path = serve (map service_of regs) path.
+Proof.
+  rewrite map_mount, mbuild_stub. destruct (build (map service_of regs)) as [r0|] eqn:E; [|discriminate].
+  cbn [option_map]. intros [= <-]. apply build_spec in E as E'. destruct E' as [-> _].
+  repeat split; try assumption; try reflexivity. intros path. apply mserve_stub.
+Qed.
+
+Lemma mbuild_none regs : mbuild (map mount regs) = None <-> build (map service_of regs) = None.
+Proof.
+  rewrite map_mount, mbuild_stub. destruct (build (map service_of regs)); cbn [option_map]; split; congruence.
+Qed.
+
+Lemma in_regs_service regs (P : service -> Prop) :
+  (exists s, In s (map service_of regs) /\ P s) <-> (exists x, In x regs /\ P (service_of x)).
+Proof.
+  split.
+  - intros (s & Hs & HP). apply in_map_iff in Hs as (x & <- & Hx). eauto.
+  - intros (x & Hx & HP). exists (service_of x). split; [now apply in_map | exact HP].
+Qed.
+
+(* dispatched to method M of service S iff the path is exactly /S/M - for stubs and for servers
+   generated from ANY descriptor: S is package "." identifier (package only if emitted and not
+   empty), M a method identifier; ts_name / tm_name occur nowhere *)
+Theorem g_route_iff regs r path S M : mbuild (map mount regs) = Some r -> regs_ok regs ->
+  (mserve r path = Handler S M <->
+   (exists x, In x regs /\ reg_name x = S /\ In M (reg_methods x)) /\ M <> [] /\
+   path = method_path S M).
+Proof.
+  intros Hb Hok. destruct (mounted_bridge regs r Hb) as (Hb0 & _ & Hs). rewrite Hs.
+  rewrite (route_iff _ _ path S M Hb0 Hok).
+  rewrite (in_regs_service regs (fun s => svc_name s = S /\ In M (svc_methods s))).
+  split; intros ((x & Hx & Hn & Hm) & R); (split; [|exact R]); exists x;
+    rewrite reg_name_service_of, reg_methods_service_of in *; auto.
+Qed.
+
+Theorem g_unimplemented_unless_exact regs r path : mbuild (map mount regs) = Some r -> regs_ok regs ->
+  (forall x M, In x regs -> In M (reg_methods x) -> M <> [] -> path <> method_path (reg_name x) M) ->
+  runs_handler (mserve r path) = false /\ status_header (mserve r path) = Some Code_Unimplemented.
+Proof.
+  intros Hb Hok H. destruct (mounted_bridge regs r Hb) as (Hb0 & _ & Hs). rewrite Hs.
+  apply (unimplemented_unless_exact _ _ path Hb0 Hok).
+  intros s M Hin HM Hne. apply in_map_iff in Hin as (x & <- & Hx).
+  rewrite reg_name_service_of. rewrite reg_methods_service_of in HM. now apply H.
+Qed.
+
+(* a first segment that is no registered NAME - the Rust spelling of an identifier, the name
+   with / without its package, any near miss - never gets past the router *)
+Theorem g_unregistered_name_falls_back regs r S' rest :
+  mbuild (map mount regs) = Some r -> regs_ok regs -> slash_free S' ->
+  (forall x, In x regs -> reg_name x <> S') ->
+  mserve r (method_path S' rest) = UnimplFallback.
+Proof.
+  intros Hb Hok Hsf Hno. destruct (mounted_bridge regs r Hb) as (Hb0 & _ & Hs). rewrite Hs.
+  apply (fallback_iff _ _ _ Hb0 Hok). intros s rest' Hin Hne E.
+  apply method_path_inj_name in E as [En _]; [|exact Hsf|eapply names_ok_slash_free; eassumption].
+  apply in_map_iff in Hin as (x & <- & Hx). rewrite reg_name_service_of in En.
+  exact (Hno x Hx (eq_sym En)).
+Qed.
+
+(* .. and a method segment that is not an identifier of the service reached (the Rust fn name,
+   another case) gets the service's default arm *)
+Theorem g_unknown_method_default_arm regs r x rest :
+  mbuild (map mount regs) = Some r -> regs_ok regs -> In x regs -> rest <> [] ->
+  ~ In rest (reg_methods x) ->
+  mserve r (method_path (reg_name x) rest) = UnimplService (reg_name x).
+Proof.
+  intros Hb Hok Hx Hne Hnot. destruct (mounted_bridge regs r Hb) as (Hb0 & _ & Hs). rewrite Hs.
+  apply (service_reached_iff _ _ _ _ Hb0 Hok). exists (service_of x), rest.
+  rewrite reg_name_service_of, reg_methods_service_of. repeat split; try assumption. now apply in_map.
+Qed.
+
+(* the generated client reaches exactly its method of its server, whatever else is registered *)
+Theorem g_client_reaches_its_server regs r g e m :
+  mbuild (map mount regs) = Some r -> regs_ok regs ->
+  In (RGen g e) regs -> In m (ts_methods g) -> tm_ident m <> [] ->
+  mserve r (tb_client_path g m e) = Handler (tb_service_name g e) (tm_ident m).
+Proof.
+  intros Hb Hok Hin Hm Hne. apply (g_route_iff regs r _ _ _ Hb Hok). split; [|split; [exact Hne | reflexivity]].
+  exists (RGen g e). split; [exact Hin|]. split; [reflexivity|]. cbn [reg_methods]. now apply in_map.
+Qed.
+
+(* Service::name() and Method::name() do not take part: two descriptors with the same package,
+   identifier and method identifiers are the same thing to the router *)
+Theorem g_rust_names_irrelevant g1 g2 e :
+  ts_package g1 = ts_package g2 -> ts_ident g1 = ts_ident g2 ->
+  map tm_ident (ts_methods g1) = map tm_ident (ts_methods g2) ->
+  mount (RGen g1 e) = mount (RGen g2 e).
+Proof.
+  intros Hp Hi Hm. rewrite !mount_service_of. f_equal. unfold service_of, tb_service_name.
+  now rewrite Hp, Hi, Hm.
+Qed.
+
+(* NAME spelled out *)
+Theorem tb_service_name_spec g :
+  tb_service_name g false = ts_ident g /\
+  (ts_package g = [] -> tb_service_name g true = ts_ident g) /\
+  (ts_package g <> [] -> tb_service_name g true = ts_package g ++ r_dot :: ts_ident g).
+Proof.
+  unfold tb_service_name. split; [reflexivity|]. split.
+  - intros ->. reflexivity.
+  - destruct (ts_package g) as [|c p]; [congruence|]. intros _. reflexivity.
+Qed.
+
+Lemma regs_ok_perm regs regs' : Permutation regs regs' -> regs_ok regs -> regs_ok regs'.
+Proof. intros P. apply names_ok_perm. now apply Permutation_map. Qed.
+
+Theorem g_order_independent regs regs' r : Permutation regs regs' ->
+  mbuild (map mount regs) = Some r -> regs_ok regs ->
+  exists r', mbuild (map mount regs') = Some r' /\ forall path, mserve r' path = mserve r path.
+Proof.
+  intros P Hb Hok. destruct (mounted_bridge regs r Hb) as (Hb0 & _ & Hs).
+  destruct (route_order_independent _ _ _ (Permutation_map service_of P) Hb0 Hok) as (r0' & Hb' & Hs').
+  apply build_spec in Hb' as Hx. destruct Hx as [-> _].
+  exists (map mount regs'). split.
+  - rewrite map_mount, mbuild_stub, Hb'. cbn [option_map]. now rewrite <- map_mount.
+  - intros path. rewrite Hs, <- Hs'. rewrite map_mount. apply mserve_stub.
+Qed.
+
+Theorem g_build_order_independent regs regs' : Permutation regs regs' ->
+  (mbuild (map mount regs) = None <-> mbuild (map mount regs') = None).
+Proof.
+  intros P. rewrite !mbuild_none. apply build_order_independent. now apply Permutation_map.
+Qed.
+
+Theorem g_build_spec regs r :
+  mbuild (map mount regs) = Some r <-> r = map mount regs /\ registrable (map service_of regs).
+Proof.
+  split.
+  - intros Hb. destruct (mounted_bridge regs r Hb) as (Hb0 & -> & _). split; [reflexivity|].
+    now apply build_spec in Hb0 as [_ ?].
+  - intros [-> Hr]. rewrite map_mount, mbuild_stub.
+    assert (E : build (map service_of regs) = Some (map service_of regs)) by (apply build_spec; now split).
+    rewrite E. reflexivity.
+Qed.
+
+(* ---------- request method: RouteFuture ---------- *)
+Lemma reply_of_b_post path o : reply_of_b BaseTonic m_POST path o = reply_of o.
+Proof. destruct o; reflexivity. Qed.
+
+(* for EVERY request method the UNIMPLEMENTED answers of Routes::default()-rooted routes are
+   well-formed (CONNECT: no content-length is written; HEAD: the - empty - body is dropped) *)
+Theorem unimplemented_well_formed_any_method meth r path : runs_handler (mserve r path) = false ->
+  exists rp, reply_of_b BaseTonic meth path (mserve r path) = Reply rp /\ is_unimplemented_response rp.
+Proof.
+  destruct (mserve r path) as [S M|S|]; cbn [runs_handler reply_of_b]; [discriminate| |]; intros _;
+    unfold axum_route_future;
+    destruct (bytes_eqb meth m_CONNECT) eqn:Ec; destruct (bytes_eqb meth m_HEAD) eqn:Eh;
+    (eexists; split; [vm_compute; reflexivity|]);
+    (repeat split; try (vm_compute; reflexivity);
+     [ first [left; vm_compute; reflexivity | right; vm_compute; reflexivity]
+     | eexists; split; [vm_compute; reflexivity|]; repeat split; vm_compute; reflexivity ]).
+Qed.
+
+(* ---------- Routes::from(axum::Router::new()): the caller's fallback ---------- *)
+(* services registered on it are reached and refused exactly as on Routes::default() (serve does
+   not depend on the base); a path that matches no route gets the CALLER's fallback - axum's
+   default 404 without grpc-status - and not tonic's UNIMPLEMENTED *)
+Theorem from_axum_router_replies meth path o rp : reply_of_b BaseAxumUser meth path o = Reply rp ->
+  match o with
+  | Handler _ _ => False
+  | UnimplService _ => is_unimplemented_response rp
+  | UnimplFallback => rp_status rp = 404 /\ hm_get_all (rp_headers rp) hdr_grpc_status = [] /\
+                      rp_body rp = [] /\ rp_trailers rp = None
+  end.
+Proof.
+  destruct o as [S M|S|]; cbn [reply_of_b]; [discriminate| |]; unfold axum_route_future.
+  - destruct (bytes_eqb meth m_CONNECT) eqn:Ec; destruct (bytes_eqb meth m_HEAD) eqn:Eh;
+      vm_compute; intros [= <-];
+      (repeat split; try reflexivity;
+       [ first [left; reflexivity | right; reflexivity]
+       | eexists; split; [vm_compute; reflexivity|]; repeat split; vm_compute; reflexivity ]).
+  - destruct (bytes_eqb meth m_CONNECT) eqn:Ec; destruct (bytes_eqb meth m_HEAD) eqn:Eh;
+      destruct (via_fallback_router path);
+      vm_compute; intros [= <-]; repeat split; reflexivity.
+Qed.
+
+(* ---------- transport Router: optional services ---------- *)
+(* a service passed as add_optional_service(None) is as if it had never been mentioned, one
+   passed as Some(svc) as if added with add_service - wherever it stands in the chain *)
+Theorem transport_regs_app l1 l2 : transport_regs (l1 ++ l2) = transport_regs l1 ++ transport_regs l2.
+Proof. unfold transport_regs. apply flat_map_app. Qed.
+
+Theorem transport_optional_absent l1 x l2 :
+  transport_regs (l1 ++ (x, Some false) :: l2) = transport_regs (l1 ++ l2).
+Proof. rewrite !transport_regs_app. reflexivity. Qed.
+
+Theorem transport_optional_present l1 x l2 :
+  transport_regs (l1 ++ (x, Some true) :: l2) = transport_regs (l1 ++ (x, None) :: l2).
+Proof. rewrite !transport_regs_app. reflexivity. Qed.
+
+Theorem transport_all_plain l : transport_regs (map (fun x => (x, None)) l) = l.
+Proof. induction l as [|x l IH]; [reflexivity|]. cbn [map]. unfold transport_regs in *. cbn [flat_map snd fst app]. now rewrite IH. Qed.
